@@ -69,8 +69,12 @@ TIMES = [0.3, 1.0, 2.2]
 SOLVER = "sedov.sedov.Sedov"
 
 # Tolerances (class C: 3001-point linear interpolation; documented small-radius interpolation in the standard case).
-# Measured on the thorough lattice of the unchanged tree (see the calibration note at the end of this file).
-TOL_E = 1.0e-3
+# Calibration on the thorough lattice of the unchanged tree (528 vectors x 3 times, 2160 integrals): worst energy residual
+# 1.42e-5 (singular-type closed form used 1e-5 away from the exactly singular omega; regular cases 1e-9..2e-6), worst mass
+# residual 1.51e-4 (planar, gamma = 1.2, omega = 0: the solver's documented linear interpolation of the density to the
+# origin inside r < 0.3 r_s), ahead density 0 at nodes and 1.4e-6 between nodes, ahead u, p exactly 0.
+# Seeded defects (mutants/C11): 7e-2 .. 0.47 on the energy, 0.6 on the ahead density.
+TOL_E = 3.0e-4
 TOL_M = 2.0e-3
 TOL_AHEAD_NODE = 1.0e-10       # rho0 r^-omega at grid nodes / two-point calls (node value to 1e-12): pure formula
 TOL_AHEAD_ZERO = 1.0e-12       # |u|, |p| ahead relative to the post-shock values (exact zeros expected)
